@@ -21,7 +21,8 @@ import numpy as np
 
 from ..coqgen import B, C, L, N, NONE, Q, Some
 from ..fin import fm, T, D, err_class, magnitude
-from .c11 import (DAY, GAPS, SHAPES, Qf, Z, _val, consumer_grid, end_of_link, freeze_once, ghost_values, make_grid, set_memory,
+from .c11 import (DAY, GAPS, SHAPES, Qf, Z, _val, consumer_grid, end_of_link, freeze_once, ghost_values, make_grid, make_notified,
+                  request_ops, set_memory,
                   to_source_cells)
 from .c11 import coq_obs as _c11_coq_obs
 
@@ -34,7 +35,8 @@ RULE = (
     "random publication series (strictly increasing times, irregular gaps from 1us to ~10 days) interleaved with "
     "consumer pulls p0 < p1 < ... that partition the period finer / coarser / incommensurably with the source steps "
     "(incl. pulls exactly on publications, at the step position, 1us steps, pulls spanning several publications), the "
-    "initial pull at the first publication time, and out-of-range pulls; AvgOverTime and SumOverTime, linear and "
+    "initial pull at the first publication time, and out-of-range pulls; every 11th case has a push-driven consumer "
+    "(CallbackInput pulling at every publication, inside the notification); AvgOverTime and SumOverTime, linear and "
     "step in {0,1/4,1/2,1,1/8,3/4,1/3,2/3,1/10,3/10}, per_time and absolute, initial_interval in {0,1us,1h,1d}, units "
     "m/s, mm/d, m, dimensionless, 1/d, scalar and small gridded payloads; data shapes incl. grids with a degenerate axis; 30% of the gridded "
     "consumers describe the grid with axes running the other way (cells matched by coordinates); 40% of the gridded series have single "
@@ -219,7 +221,15 @@ def _plateau_series(stride, days=9, **kw):
     return ops
 
 
+def _notified_witness(adapter, step, per_time, units="mm/d"):
+    """push-driven consumer: the pull made inside each notification integrates up to the new publication"""
+    ops = [["push", 0, [1.0]], ["push", 8, [3.0]], ["push", 12, [-2.0]], ["pull", 13], ["push", 28, [0.5]]]
+    return dict(_case(adapter, step, per_time, ops, units=units), notified=True)
+
+
 CORPUS = [
+    _notified_witness("avg", None, False), _notified_witness("sum", [1, 4], True, units="m/s"),
+    _notified_witness("sum", None, False, units="m"),
     _layout_witness("sum", None, True, [False, True]), _layout_witness("sum", [3, 10], False, [False, True], units="mm"),
     _layout_witness("sum", [0, 1], True, [True, False], units="m/s"), _layout_witness("avg", None, False, [True, True]),
     _missing_witness("avg", None, False, "nan"), _missing_witness("avg", [1, 2], False, "mask"),
@@ -266,7 +276,9 @@ def generate(rng, tier):
     n = 1200 if tier == "quick" else 48000
     cases = list(CORPUS)
     for i in range(n):
-        cases.append(_gen_case(rng, i, malformed=(i % 6 == 5)))
+        c = _gen_case(rng, i, malformed=(i % 6 == 5))
+        # push-driven consumer: pulls exactly at every publication, inside the notification (p0 < p1 = publication time)
+        cases.append(make_notified(c, keep_latest=False) if i % 11 == 7 else c)
     return cases
 
 
@@ -283,7 +295,7 @@ def _run_link(case, ghost):
     grid = make_grid(shape)
     n = int(np.prod(shape)) if shape else 1
     out = fm.Output(name="Out")
-    inp = fm.Input(name="In")
+    inp = fm.CallbackInput(lambda caller, time: pull_once(time), name="In") if case.get("notified") else fm.Input(name="In")
     ada = make_adapter(case)
     set_memory(ada, case, n)
     out >> ada >> inp
@@ -307,6 +319,25 @@ def _run_link(case, ghost):
     pulls = []
     data_units_ok = True
     has_missing = any(op[0] == "push" and len(op) > 3 for op in case["ops"])
+    def pull_once(time):
+        nonlocal data_units_ok
+        try:
+            d = inp.pull_data(time)
+            if d.units != ureg.Unit(info_units):
+                data_units_ok = False
+            dn = d.to(u_norm) if scaled else d
+            m = magnitude(dn)
+            if has_missing:
+                raw = to_source_cells(np.asarray(np.ma.getdata(m), dtype=float), grid, cgrid, shape)
+                bits = [int(b or np.isnan(x)) for x, b in zip(raw, to_source_cells(np.ma.getmaskarray(m), grid, cgrid, shape))]
+                # a missing cell (masked or NaN) carries no value
+                pulls.append(["ok", [0.0 if b else float(x) for x, b in zip(raw, bits)], bits])
+                return
+            vals = [float(x) for x in to_source_cells(np.asarray(m, dtype=float), grid, cgrid, shape)]
+            pulls.append(["ok", vals])
+        except Exception as e:  # noqa
+            pulls.append([err_class(e)])
+
     try:
         for op in case["ops"]:
             if op[0] == "push":
@@ -320,22 +351,7 @@ def _run_link(case, ghost):
                         data[flags] = np.nan
                 out.push_data(data, T(op[1]))
             else:
-                try:
-                    d = inp.pull_data(T(op[1]))
-                    if d.units != ureg.Unit(info_units):
-                        data_units_ok = False
-                    dn = d.to(u_norm) if scaled else d
-                    m = magnitude(dn)
-                    if has_missing:
-                        raw = to_source_cells(np.asarray(np.ma.getdata(m), dtype=float), grid, cgrid, shape)
-                        bits = [int(b or np.isnan(x)) for x, b in zip(raw, to_source_cells(np.ma.getmaskarray(m), grid, cgrid, shape))]
-                        # a missing cell (masked or NaN) carries no value
-                        pulls.append(["ok", [0.0 if b else float(x) for x, b in zip(raw, bits)], bits])
-                        continue
-                    vals = [float(x) for x in to_source_cells(np.asarray(m, dtype=float), grid, cgrid, shape)]
-                    pulls.append(["ok", vals])
-                except Exception as e:  # noqa
-                    pulls.append([err_class(e)])
+                pull_once(T(op[1]))
     finally:
         end_of_link(ada)
     unit_obs["data_units_ok"] = data_units_ok
@@ -353,7 +369,7 @@ def run_impl(case):
 
 def coq_case(case, obs):
     ops = []
-    for op in case["ops"]:
+    for op in request_ops(case):
         if op[0] == "push":
             if len(op) > 3:
                 ops.append(C("VPushM", Z(op[1]), L(Qf(v) for v in op[2]), L(B(b) for b in op[3])))
@@ -407,7 +423,7 @@ def _walk(case, obs):
     scaled = avg or case["per_time"]
     tol = Fraction(1, 10**9)
     incomplete = set()      # cells for which some delivery was missing: no total to conserve
-    for op in case["ops"]:
+    for op in request_ops(case):
         if op[0] == "push":
             if times and op[1] <= times[-1]:
                 return fails, st
@@ -545,6 +561,7 @@ def distribution(cases, obss):
     return {"adapters": dict(ad), "step_positions": dict(steps), "payload_shapes": dict(shapes), "source_units": dict(units),
             "delivered_units": dict(out_units), "pull_results": dict(res),
             "memory_limit": dict(Counter(str(c.get("mem")) for c in cases)),
+            "push_driven_consumer": sum(1 for c in cases if c.get("notified")),
             "consumer_grid_layout_differs": sum(1 for c in cases if c.get("flip") and any(c["flip"])),
             "missing_values": dict(Counter(str(c.get("missing")) for c in cases)),
             "series_with_plateau_of_3_or_more": sum(1 for c in cases if _has_plateau(c)),
